@@ -13,6 +13,11 @@
   on a WebSocket).  Framing `b64`: the packets of a flush travel in `engineio.payload.Payload`s of
   at most 16 packets (`Payload.encode()` / `Payload(encoded_payload=…)`), so that binary
   attachments are base64 text with the `b` prefix, as on the polling transport.
+* server `async_handlers=True`: the spawned handlers are queued by `ServerWorld` and run in spawn
+  order either after every delivered frame (`settle='frame'`: the loop gets a turn between frames,
+  as with WebSocket frames arriving apart) or after the whole flush (`settle='batch'`: several
+  packets of one polling payload are processed without the loop getting a turn, the tasks start
+  afterwards in creation order).
 * nothing runs concurrently: `pump()` moves the queued traffic until both directions are empty;
   `call()` has its wait scripted (threads: the event's `wait()` pumps the link; asyncio: the call
   is a task of the private loop, the link is pumped while it is suspended).  No wall-clock waits.
@@ -116,11 +121,12 @@ class ScriptedEvent:
 class E2EWorld:
     TID = 'T0'
 
-    def __init__(self, mode, serializer, framing, namespaces, rng, async_handlers=False):
+    def __init__(self, mode, serializer, framing, namespaces, rng, async_handlers=False, settle='frame'):
         self.mode = mode
         self.is_async = mode == 'asyncio'
         self.serializer = serializer
         self.framing = framing
+        self.settle_mode = settle           # background handlers joined after every frame | after the flush
         self.rng = rng
         self.namespaces = list(namespaces)
         self.c2s = []                       # engine.io packets the client handed to its transport
@@ -198,8 +204,13 @@ class E2EWorld:
                             self.errors.append(('server', cls))
                         if r[0] != 'ok':
                             self.errors.append(('server', r[1]))
-                        for e in self.sw.settle():
-                            self.errors.append(('server-bg', e))
+                        if self.settle_mode == 'frame':
+                            for e in self.sw.settle():
+                                self.errors.append(('server-bg', e))
+                    # 'batch': the frames of a flush arrive back to back, the loop (the thread
+                    # scheduler) gets its turn afterwards: spawned handlers start in spawn order
+                    for e in self.sw.settle():
+                        self.errors.append(('server-bg', e))
                     moved = True
                 out = [d for d in self.sw.sent(self.TID) if not isinstance(d, tuple)]
                 if out:
